@@ -291,6 +291,44 @@ def narrow(genfile, failures, linemap, timeout=900):
     return failures
 
 
+def retry_rlimit(genfile, fn, module, linemap, scale=4, timeout=3600):
+    """A function that exhausted its resource limit is verified again, alone, with `scale` times the limit.
+    Returns ('ok', []) if it verifies, ('failed', failures) if the verifier now names failing obligations,
+    ('rlimit', []) if it is still out of resources."""
+    txt = open(genfile).read()
+    txt2 = re.sub(r'#\[verifier::rlimit\((\d+)\)\]', lambda mo: '#[verifier::rlimit(%d)]' % (int(mo.group(1)) * scale), txt)
+    rfile = genfile.replace('.rs', '_retry.rs')
+    open(rfile, 'w').write(txt2)
+    tail = re.sub(r'@\w+::', '::', fn)
+    if module and tail.startswith(module + '::'):
+        tail = tail[len(module) + 2:]
+    cmd = ['verus', rfile, '--cfg', 'feature="stream"', '--cfg', 'feature="raw_decoder"', '--no-lifetime',
+           '--triggers-mode', 'silent', '--multiple-errors', '8', '--error-format=json', '--rlimit', str(10 * scale),
+           '--verify-function', '*' + tail]
+    cmd += ['--verify-only-module', module] if module and module not in ('spec', 'prelude') else ['--verify-root']
+    try:
+        p = subprocess.run(cmd, capture_output=True, text=True, cwd=VERIF, timeout=timeout)
+    except subprocess.TimeoutExpired:
+        return 'rlimit', []
+    diags = []
+    for line in p.stderr.splitlines():
+        line = line.strip()
+        if line.startswith('{'):
+            try:
+                diags.append(json.loads(line))
+            except Exception:
+                pass
+    fl, te = classify(diags, linemap, rfile)
+    fl = [f for f in fl if f.get('fn') == fn or f.get('fn') is None]
+    if te:
+        return 'rlimit', []
+    if any(f['kind'] == 'rlimit' for f in fl):
+        return 'rlimit', []
+    if not fl:
+        return 'ok', []
+    return 'failed', [f for f in fl if f.get('fn') == fn]
+
+
 def overlay_index(rep):
     """fn -> dict(props(primary, C07 stripped), clauses=[(id, props, text)])."""
     idx = {}
